@@ -30,6 +30,10 @@ IsBare(d) == d \in {"bare", "merged_rename", "separate", "after_other"}
 Init == c \in [shape : Shapes, t : Ts, default : Defaults]
 Next == UNCHANGED c
 Tree == ShapeOf(c.shape, TOf(c.t))
-Emit == PrintT(<<"REPLAY", ToJson([case |-> c, rust |-> Tree, bare |-> IsBare(c.default),
+\* every case is generated under each configuration; whether a member is optional never depends on it.
+\* lang_options = the file-only backend options that re-shape members: Go no_pointer_slice = true and uppercase_acronyms,
+\* Swift default_decorators / default_generic_constraints / codablevoid_constraints
+Configs == {"base", "lang_options"}
+Emit == PrintT(<<"REPLAY", ToJson([case |-> c, rust |-> Tree, bare |-> IsBare(c.default), configs |-> Configs,
                                    optional |-> Optional(IsOpt(Tree), IsBare(c.default))])>>)
 =============================================================================
